@@ -53,7 +53,9 @@ func report(g *Gen, p *PropConfig, bl *Baseline, out *CheckOutcome, tier string,
 			case "sat":
 				covSat++
 			case "unsat":
-				vacuous = append(vacuous, r.ID)
+				if !bl.Unreach[r.ID] {
+					vacuous = append(vacuous, r.ID)
+				}
 			default:
 				covUnk++
 			}
